@@ -258,6 +258,32 @@ theorem needed_part_decides_denotation (S : Sem Val) (p p' : List PNode) (hwf : 
     (embedsNeeded_spec p p' hwf σ _ hemb) (fun a => b' (σ a)) b' (fun _ => rfl) r
     (needed_mono p _ _ (List.mem_map.mpr ⟨r, hr, rfl⟩))
 
+/-- **The bindings are compared on the needed ARGUMENT ids only** (strengthening of
+    `needed_part_decides_denotation`, via `table_congr_args`: a binding is read at argument ids only).  If the
+    needed part of `p` sits in `p'` under `σ` and the binding of `p'` gives every needed id `σ a` *whose node is an
+    argument* the value `a` has in `p`, every requested value is the same — whatever the two bindings say at operator
+    / initializer ids and at arguments that are not needed. -/
+theorem needed_part_decides_denotation_args (S : Sem Val) (p p' : List PNode) (hwf : WF p) (hwf' : WF p')
+    (σ : Nat → Nat) (hσ : ∀ x y, σ x = σ y → x = y) (results : List VarRef)
+    (hemb : embedsNeeded p p' σ (results.map (·.node)) = true) (b b' : Nat → Val)
+    (hb : ∀ a ∈ needed p (results.map (·.node)), isArg p a = true → b' (σ a) = b a) :
+    results.map (fun r => denote S p' b' (mapRef σ r)) = results.map (denote S p b) := by
+  rw [needed_part_decides_denotation S p p' hwf hwf' σ hσ results hemb (fun a => b' (σ a)) b'
+    (fun _ _ => rfl)]
+  -- b'' := b' ∘ σ and b₃ := b'' at argument ids, b elsewhere: same table as b''; agrees with b on needed ids
+  have h3 : ∀ r, denote S p (fun a => b' (σ a)) r
+      = denote S p (fun a => if isArg p a = true then b' (σ a) else b a) r := by
+    intro r
+    unfold denote
+    rw [table_congr_args S p (fun a => b' (σ a)) (fun a => if isArg p a = true then b' (σ a) else b a)
+      (fun a ha => by simp only [ha, if_true])]
+  rw [List.map_congr_left (fun r _ => h3 r)]
+  apply denote_congr_needed S p hwf
+  intro a ha
+  by_cases hA : isArg p a = true
+  · simp only [hA, if_true]; exact hb a ha hA
+  · simp only [hA]; rfl
+
 /-- The same with every hypothesis executable: the renaming is a finite table (`sigmaOf`, injective by
     `sigmaOk`), well-formedness by `wfCheck` — the form the driver evaluates on real runs. -/
 theorem needed_part_decides_values_checked (S : Sem Val) (p p' : List PNode) (tbl : List Nat)
@@ -650,5 +676,18 @@ example (b b' : Nat → Int) (hb : ∀ a ∈ [0, 1, 2, 3, 4, 5, 6, 7], b' (sigma
     (sigmaOf_injective nestedIfSigma 100 (by decide)) [⟨7, 0⟩] (by decide) b b'
     (fun a ha => hb a (by revert a; decide))
   simpa [mapRef, sigmaOf, nestedIfSigma] using h
+
+/-- `needed_part_decides_denotation_args` instantiated: the bindings need to agree on `b c x y` only — not on the
+    operator ids 4–7, not on `w` -/
+example (b b' : Nat → Int) (hb : ∀ a ∈ [0, 1, 2, 3], b' (sigmaOf nestedIfSigma 100 a) = b a) :
+    denote exSem nestedIfOther.nodes b' ⟨9, 0⟩ = denote exSem nestedIf.nodes b ⟨7, 0⟩ := by
+  have h := needed_part_decides_denotation_args exSem nestedIf.nodes nestedIfOther.nodes
+    (wfCheck_sound _ (by decide)) (wfCheck_sound _ (by decide)) _
+    (sigmaOf_injective nestedIfSigma 100 (by decide)) [⟨7, 0⟩] (by decide) b b'
+    (fun a ha hA => hb a ((by decide : ∀ a ∈ needed nestedIf.nodes (([⟨7, 0⟩] : List VarRef).map VarRef.node),
+      isArg nestedIf.nodes a = true → a ∈ [0, 1, 2, 3]) a ha hA))
+  simpa [mapRef, sigmaOf, nestedIfSigma] using h
+/-- and the hypothesis is not vacuous there: needed ids that are no arguments exist (4 = `x + y`) -/
+example : 4 ∈ needed nestedIf.nodes [7] ∧ isArg nestedIf.nodes 4 = false := by decide
 
 end C01
